@@ -380,6 +380,10 @@ func (r *FnRun) callContractB(st *State, fr *frame, instr ssa.Instruction, f *ss
 		}
 	}
 	r.calleesByContract[callee] = true
+	if r.calleeKeys == nil {
+		r.calleeKeys = map[string]bool{}
+	}
+	r.calleeKeys[pkg.Name()+":"+callee] = true
 	if fc.Trusted {
 		if r.trustedCallees == nil {
 			r.trustedCallees = map[string]bool{}
@@ -508,6 +512,10 @@ func (r *FnRun) rangeLoop(st *State, fr *frame, instr ssa.Instruction, f *ssa.Fu
 	ord := st.callOrd["rangeloop"]
 	r.calleesByContract[callee] = true
 	pkg := pkgOfFn(f)
+	if r.calleeKeys == nil {
+		r.calleeKeys = map[string]bool{}
+	}
+	r.calleeKeys[pkg.Name()+":"+callee] = true
 	if fc.Trusted {
 		if r.trustedCallees == nil {
 			r.trustedCallees = map[string]bool{}
